@@ -78,10 +78,44 @@ def thresh_model(trains, edges):
     return math.sqrt(float(ms)) / O.SCALE, min(pool) / float(O.SCALE)
 
 
-def evaluate(r, trains, edges, menu, be, rank=(), auto_only=False, coinc_only=False):
+def evaluate(r, trains, edges, menu, be, rank=(), auto_only=False, coinc_only=False, raw=None):
     import pyspike as spk
     from pyspike.isi_lengths import default_thresh
     sts = [spk.SpikeTrain(t, edges) for t in trains]
+    if raw is not None:
+        # the library gets the trains in a messy form (unsorted, repeated spike times); 'auto'
+        # must still be the threshold of the *reconciled* trains, i.e. of `trains`
+        rsts = [spk.SpikeTrain(t, edges, is_sorted=True) for t in raw]
+        th_e, _ = thresh_model(trains, edges)
+        for fname, f in (
+                ("spike_sync(list)", lambda s_, m: float(spk.spike_sync(s_, MRTS=m))),
+                ("spike_train_order(list)", lambda s_, m: float(spk.spike_train_order(s_, MRTS=m))),
+                ("spike_sync_profile(list)", lambda s_, m: _lst(spk.spike_sync_profile(s_, MRTS=m).y)),
+                ("spike_train_order(a,b)",
+                 lambda s_, m: float(spk.spike_train_order(s_[0], s_[1], MRTS=m))),
+                ("spike_directionality_matrix",
+                 lambda s_, m: _lst(spk.spike_directionality_matrix(s_, MRTS=m))),
+                ("isi_distance(list)", lambda s_, m: float(spk.isi_distance(s_, MRTS=m)))):
+            r.evaluations += 1
+            try:
+                a = f(rsts, "auto")
+                if fname == "spike_train_order(a,b)":
+                    b = f(sts, float(thresh_model(trains[:2], edges)[0]))
+                else:
+                    b = f(sts, th_e)
+            except Exception as e:
+                r.violation(ID, "auto.messy.exception", be, "auto.messy.exception/%s/%s" % (fname, be),
+                            {"raw": raw, "edges": edges, "form": fname}, "results",
+                            "%s: %s" % (type(e).__name__, e), "measure raised", rank)
+                continue
+            from mc.measures import obs_close
+            if not obs_close(a, b, TOL):
+                r.violation(ID, "auto.messy", be, "auto.messy/%s/%s" % (fname, be),
+                            {"raw": raw, "trains": trains, "edges": edges, "form": fname,
+                             "threshold_of_reconciled_trains": th_e}, b, a,
+                            "MRTS='auto' on unsorted / repeated spike times is not the pooled "
+                            "threshold of the reconciled trains", rank)
+        return
     n = len(trains)
     cls = "N%d/%s" % (n, pairs.classes(trains, edges[0], edges[1]) if n == 2 else "")
     case = {"trains": trains, "edges": edges}
@@ -253,6 +287,12 @@ def run_task(task):
             trains, edges = pairs.trains_edges(k, masks)
             evaluate(r, trains, edges, [0.0], task["backend"], (k, pairs.nspikes(masks)),
                      auto_only=True)
+            raw = []
+            for t in trains:
+                x = list(reversed(t))
+                raw.append(([x[-1]] + x + [x[0]]) if x else x)
+            evaluate(r, trains, edges, [0.0], task["backend"], (k, pairs.nspikes(masks), 1),
+                     raw=raw)
         return pairs.run_states(task, mixed, ID, states=pairs.mixed_rate_triples(
             tuple(task["ks"]), 2, task["shard"], task["nshards"]))
     return pairs.run_states(task, check_state, ID)
@@ -262,5 +302,10 @@ def replay(rec):
     r = Result()
     c = rec["case"]
     menu = MRTS_T
+    if "raw" in c:
+        trains = c.get("trains") or [sorted(set(t)) for t in c["raw"]]
+        evaluate(r, trains, c["edges"], [0.0], rec["backend"], tuple(rec.get("rank", ())),
+                 raw=c["raw"])
+        return r
     evaluate(r, c["trains"], c["edges"], menu, rec["backend"], tuple(rec.get("rank", ())))
     return r
